@@ -94,6 +94,9 @@ pub fn natives() -> Vec<Spec> {
 	}
 	out.push(Spec::Native(Native::VecsFromRef));
 	out.push(Spec::Native(Native::VecsOwnedBoxed(0)));
+	for k in KINDS {
+		out.push(Spec::Native(Native::ZstFront(k, true)));
+	}
 	out.push(Spec::Native(Native::BoxedTupVecs(vec![1, 0], vec![2, 0])));
 	out.push(Spec::Native(Native::BoxedTupVecs(vec![], vec![])));
 	out.push(Spec::Native(Native::BoxedTupRRP(1, 0, 0)));
